@@ -228,12 +228,14 @@ def checkFlow (p : Prog) (sc : Scenario) (defaultConc : Nat) (o : Obs) : List Di
     let pc := obsPCall k
     (if c.length > 1 then [("calls", s!"task {k} called {c.length} times")] else []) ++
     (match c.head? with
-     | some l => if before || !f.fnCalled then [("calls", s!"task {k} must not be called")]
+     | some l => if before then [("cancel", s!"task {k} called although the context was done before the directive started")]
+                 else if !f.fnCalled then [("calls", s!"task {k} must not be called")]
                  else if l != joinNat k f.fnArgs then [("args", s!"task {k} called with [{l}] want [{joinNat k f.fnArgs}]")] else []
      | none => []) ++
     (if pc.length > 1 then [("calls", s!"predicate {k} called {pc.length} times")] else []) ++
     (match pc.head? with
-     | some l => if before || !f.predCalled then [("calls", s!"predicate {k} must not be called")]
+     | some l => if before then [("cancel", s!"predicate {k} called although the context was done before the directive started")]
+                 else if !f.predCalled then [("calls", s!"predicate {k} must not be called")]
                  else if l != joinNat k f.predArgs then [("args", s!"predicate {k} called with [{l}] want [{joinNat k f.predArgs}]")] else []
      | none => [])
   let cancelDeps := match cancelK with
@@ -241,9 +243,9 @@ def checkFlow (p : Prog) (sc : Scenario) (defaultConc : Nat) (o : Obs) : List Di
       if !cancelActive then [] else
       p.tasks.flatMap fun t =>
         (if (ancestors p t.k).contains ck && !(obsCall t.k).isEmpty
-          then [("calls", s!"task {t.k} started although it depends on task {ck} which cancelled the context")] else []) ++
+          then [("cancel", s!"task {t.k} started although it depends on task {ck} which cancelled the context")] else []) ++
         (if t.pred && !(obsPCall t.k).isEmpty && t.pins.any (fun ty => ((p.tasks.filter (fun u => u.outs.contains ty)).any fun u => u.k == ck || (ancestors p u.k).contains ck))
-          then [("calls", s!"predicate {t.k} started although it depends on task {ck} which cancelled the context")] else [])
+          then [("cancel", s!"predicate {t.k} started although it depends on task {ck} which cancelled the context")] else [])
     | none => []
   let mustCallJob := fun (k : Nat) =>
     let f := id.get k
@@ -358,7 +360,7 @@ def checkPar (p : Prog) (sc : Scenario) (defaultConc : Nat) (o : Obs) : List Div
   let idealLines := ideal.map (·.1)
   let callDivs := obsLines.eraseDups.flatMap fun line =>
     let n := (obsLines.filter (· == line)).length
-    if before then [("calls", s!"cancel=before: [{line}] must not be called")]
+    if before then [("cancel", s!"cancel=before: [{line}] must not be called")]
     else if never.contains line then [("calls", s!"[{line}] called although an element of its collection failed")]
     else if !idealLines.contains line then [("calls", s!"unexpected call [{line}]")]
     else if n > 1 then [("calls", s!"[{line}] called {n} times")] else []
